@@ -20,7 +20,7 @@ cd /verif
 for p in "$@"; do
   echo "=== $p (overlay)"
   W=$(mktemp -d /var/tmp/govc-ov-XXXXXX)
-  ./bin/govc check -prop "$p" ${FUNC:+-func "$FUNC"} -tier quick -contracts "${CONTRACTS:-/verif/contracts,/repo}" -overlay "$T/ov.json" -evidence "$W/ev.json" -workdir "$W" -replays "$W" 2>&1 | grep -E "FAILED|VIOLATION|UNDECIDED|^property=" | cut -c1-300 | head -12
+  ./bin/govc check -prop "$p" ${FUNC:+-func "$FUNC"} ${PKG:+-pkg "$PKG"} -tier quick -contracts "${CONTRACTS:-/verif/contracts,/repo}" -overlay "$T/ov.json" -evidence "$W/ev.json" -workdir "$W" -replays "$W" 2>&1 | grep -E "FAILED|VIOLATION|UNDECIDED|^property=" | cut -c1-300 | head -12
   echo "exit=${PIPESTATUS[0]}"
   rm -rf "$W"
 done
